@@ -8,7 +8,7 @@ import shutil
 import tempfile
 
 VERIF = os.path.dirname(os.path.dirname(os.path.abspath(__file__)))
-REPO = "/repo"
+REPO = os.environ.get("VF_REPO", "/repo")
 LIB = os.path.join(REPO, "synced_collections")
 
 
